@@ -302,4 +302,165 @@ Corollary accepted_barrier_trace_reaches tr n s xy : paccept_all p_init tr = Som
 Proof. intro H. pose proof (paccept_all_reach tr p_init _ PR0 H) as R. cbn in R. inversion R; subst. assumption. Qed.
 Corollary accepted_wg_trace_reaches tr s xy : paccept_all p_init tr = Some (MWg s, xy) -> WReach s.
 Proof. intro H. pose proof (paccept_all_reach tr p_init _ PR0 H) as R. cbn in R. inversion R; subst. assumption. Qed.
+
+(* ---------------------------------------------------------------------------------------- the Condvar component *)
+(* lifting does to the Condvar component exactly what the Condvar action does *)
+Ltac bproj H :=
+  repeat match type of H with
+  | context [match bpc ?s ?a with _ => _ end] => let E := fresh "Eb" in destruct (bpc s a) eqn:E; try discriminate
+  | context [match step ?c ?x with _ => _ end] => let E := fresh "Es" in destruct (step c x) eqn:E; try discriminate
+  | context [if ?t then _ else _] => let E := fresh "Ei" in destruct t eqn:E; try discriminate
+  end.
+Lemma bupd_same {X} (f : nat -> X) i v : bupd f i v i = v.
+Proof. unfold bupd. now rewrite Nat.eqb_refl. Qed.
+
+Lemma bl1_step n co pnd s c s' : bl1 n co pnd s c = Some s' -> step (cs s) c = Some (cs s').
+Proof.
+  intros H. unfold bl1, bthen in H.
+  destruct c as [a|a p|a co' d|a|a|a|a|a e|a|t]; try discriminate.
+  - (* Lock *) destruct (pnd a); [|discriminate]. unfold bstep in H. bproj H. inversion H; subst; cbn; first [assumption | reflexivity].
+  - (* Unlock *) destruct p; [discriminate|].
+    destruct (bpc s a) eqn:Eb0; try discriminate; unfold bstep in H; rewrite ?Eb0 in H; cbn [cs cnt gen bpc lgen bco arr ldr ret lret inl viol] in H;
+      rewrite ?bupd_same in H; cbn [bpc_eqb] in H; bproj H; cbn [cs cnt gen bpc lgen bco arr ldr ret lret inl viol] in *;
+      rewrite ?bupd_same in *; try discriminate; inversion H; subst; cbn; first [assumption | reflexivity].
+  - (* Wait *) destruct d; [discriminate|]. destruct (Bool.eqb co' (bco s a)) eqn:Eco; [|discriminate]. apply eqb_prop in Eco. subst co'.
+    destruct (bpc s a) eqn:Eb0; try discriminate; unfold bstep in H; rewrite ?Eb0 in H; cbn [cs cnt gen bpc lgen bco arr ldr ret lret inl viol] in H;
+      rewrite ?bupd_same in H; cbn [bpc_eqb] in H; bproj H; cbn [cs cnt gen bpc lgen bco arr ldr ret lret inl viol] in *;
+      rewrite ?bupd_same in *; try discriminate; inversion H; subst; cbn; first [assumption | reflexivity].
+  - (* NotifyAll *)
+    destruct (bpc s a) eqn:Eb0; try discriminate; unfold bstep in H; rewrite ?Eb0 in H; bproj H; cbn [cs cnt gen bpc lgen bco arr ldr ret lret inl viol] in *;
+      rewrite ?bupd_same in *; try discriminate; inversion H; subst; cbn; first [assumption | reflexivity].
+  - unfold bstep in H. bproj H; inversion H; subst; cbn; first [assumption | reflexivity].
+  - unfold bstep in H. bproj H; inversion H; subst; cbn; first [assumption | reflexivity].
+  - unfold bstep in H. bproj H; inversion H; subst; cbn; first [assumption | reflexivity].
+  - unfold bstep in H. bproj H; inversion H; subst; cbn; first [assumption | reflexivity].
+  - unfold bstep in H. bproj H; inversion H; subst; cbn; first [assumption | reflexivity].
+Qed.
+Lemma bls_steps n co pnd l : forall s s', bls n co pnd s l = Some s' -> steps (cs s) l = Some (cs s').
+Proof.
+  induction l as [|c l IH]; cbn [bls steps]; intros s s' H; [inversion H; reflexivity|].
+  destruct (bl1 n co pnd s c) as [s1|] eqn:E; [|discriminate]. rewrite (bl1_step _ _ _ _ _ _ E). apply IH. exact H.
+Qed.
+
+Ltac wproj H :=
+  repeat match type of H with
+  | context [match wpc ?s ?a with _ => _ end] => let E := fresh "Eb" in destruct (wpc s a) eqn:E; try discriminate
+  | context [match step ?c ?x with _ => _ end] => let E := fresh "Es" in destruct (step c x) eqn:E; try discriminate
+  | context [match wk ?s ?a with _ => _ end] => let E := fresh "Ek" in destruct (wk s a) eqn:E; try discriminate
+  | context [if ?t then _ else _] => let E := fresh "Ei" in destruct t eqn:E; try discriminate
+  end.
+Ltac wnorm H := unfold w_data, w_call, w_pc, w_cs in H; cbn [wcs wcnt wpc wk wco hl wviol early] in H; rewrite ?bupd_same in H; cbn [wpc_eqb after_data after_unlock] in H.
+Ltac wfinish H := unfold w_data, w_call, w_pc, w_cs in *; cbn [wcs wcnt wpc wk wco hl wviol early] in *; rewrite ?bupd_same in *; try discriminate; inversion H; subst; cbn [wcs wcnt wpc wk wco hl wviol early]; first [assumption | reflexivity | congruence].
+
+Lemma wl1_step co opf s c s' : wl1 co opf s c = Some s' -> step (wcs s) c = Some (wcs s').
+Proof.
+  intros H. unfold wl1, wthen in H.
+  destruct c as [a|a p|a co' d|a|a|a|a|a e|a|t]; try discriminate.
+  - (* Lock *)
+    destruct (wpc s a) eqn:Eb0; try discriminate.
+    + destruct (opf a) as [|[|[|[|k]]]]; try discriminate; unfold wstep in H; rewrite Eb0 in H; wproj H; wnorm H; wproj H; wfinish H.
+    + unfold wstep in H; rewrite Eb0 in H; wproj H; wnorm H; wproj H; wfinish H.
+    + unfold wstep in H; rewrite Eb0 in H; wproj H; wnorm H; wproj H; wfinish H.
+  - (* Unlock *) destruct p; [discriminate|].
+    destruct (wpc s a) eqn:Eb0; try discriminate; unfold wstep in H; rewrite ?Eb0 in H; wnorm H; wproj H; wnorm H; wproj H; wnorm H; wfinish H.
+  - (* Wait *) destruct d; [discriminate|]. destruct (Bool.eqb co' (wco s a)) eqn:Eco; [|discriminate]. apply eqb_prop in Eco. subst co'.
+    destruct (wpc s a) eqn:Eb0; try discriminate; unfold wstep in H; rewrite ?Eb0 in H; wnorm H; wproj H; wnorm H; wfinish H.
+  - (* NotifyAll *)
+    destruct (wpc s a) eqn:Eb0; try discriminate; unfold wstep in H; rewrite ?Eb0 in H; wnorm H; wproj H; wnorm H; wfinish H.
+  - unfold wstep in H. wproj H; wfinish H.
+  - unfold wstep in H. wproj H; wfinish H.
+  - unfold wstep in H. wproj H; wfinish H.
+  - unfold wstep in H. wproj H; wfinish H.
+  - unfold wstep in H. wproj H; wfinish H.
+Qed.
+Lemma wls_steps co opf l : forall s s', wls co opf s l = Some s' -> steps (wcs s) l = Some (wcs s').
+Proof.
+  induction l as [|c l IH]; cbn [wls steps]; intros s s' H; [inversion H; reflexivity|].
+  destruct (wl1 co opf s c) as [s1|] eqn:E; [|discriminate]. rewrite (wl1_step _ _ _ _ _ E). apply IH. exact H.
+Qed.
 Open Scope Z_scope.
+
+(* the product acceptor accepts only what the Condvar acceptor accepts: its Condvar component and Condvar-level
+   bookkeeping move exactly as CondvarAccept.accept_ev says, the API records being read as code 70 *)
+Definition ev70 (e : list Z) : list Z :=
+  match e with
+  | [code; a; o; v] => if Z.leb 71 code && Z.leb code 79 then [70; a; o; v] else e
+  | _ => e end.
+Definition proj (p : pst) : ast := (pmon_cs (fst p), fst (snd p)).
+
+Lemma accept70 s x a o v : started x = true -> accept_ev (s, x) [70; a; o; v] = Some (s, x).
+Proof. intro S. unfold accept_ev. rewrite S. reflexivity. Qed.
+
+Lemma zrange_eq code k : Z.eqb code k = true -> (71 <=? k) && (k <=? 79) = true -> (71 <=? code) && (code <=? 79) = true.
+Proof. intros E R. apply Z.eqb_eq in E. subst. exact R. Qed.
+
+Theorem accept_refines_condvar p e p' : paccept_ev p e = Some p' -> accept_ev (proj p) (ev70 e) = Some (proj p').
+Proof.
+  intros H. destruct p as [m [x y]]. unfold paccept_ev in H.
+  destruct e as [|code [|za [|o [|v [|? ?]]]]]; try discriminate.
+  unfold proj. cbn [fst snd]. destruct (started x) eqn:St; cbn [negb] in H.
+  2: { destruct m; try discriminate. destruct code; try discriminate. inversion H; subst. cbn. unfold accept_ev. rewrite St. reflexivity. }
+  destruct m as [|n s|s]; cbn [pmon_cs].
+  - (* before the object exists *)
+    destruct (Z.eqb code 71) eqn:E71.
+    { destruct (Z.leb 1 o); [|discriminate]. inversion H; subst. cbn [fst snd pmon_cs cs binit].
+      unfold ev70. rewrite (zrange_eq _ _ E71 eq_refl). apply accept70. exact St. }
+    destruct (Z.eqb code 74) eqn:E74.
+    { destruct (wstep winit (WGive 0 (Z.to_nat za))) as [w|] eqn:Ew; [|discriminate]. inversion H; subst. cbn [fst snd pmon_cs].
+      unfold ev70. rewrite (zrange_eq _ _ E74 eq_refl).
+      assert (Ec : wcs w = init) by (unfold wstep in Ew; cbn in Ew; inversion Ew; reflexivity).
+      rewrite Ec. apply accept70. exact St. }
+    destruct (plan_ev init x [code; za; o; v]) as [pl|] eqn:Ep; [|discriminate].
+    destruct (isnil (acts pl) && post pl init) eqn:Eo; [|discriminate]. apply andb_prop in Eo. destruct Eo as [En Eo].
+    inversion H; subst. cbn [fst snd pmon_cs].
+    assert (R71 : (71 <=? code) && (code <=? 79) = false).
+    { destruct ((71 <=? code) && (code <=? 79)) eqn:R; [|reflexivity]. exfalso. apply andb_prop in R. destruct R as [R1 R2].
+      apply Z.leb_le in R1. apply Z.leb_le in R2. unfold plan_ev in Ep.
+      assert (C : code = 71 \/ code = 72 \/ code = 73 \/ code = 74 \/ code = 75 \/ code = 76 \/ code = 77 \/ code = 78 \/ code = 79) by lia.
+      destruct C as [C|[C|[C|[C|[C|[C|[C|[C|C]]]]]]]]; subst code; discriminate. }
+    unfold ev70. rewrite R71. unfold accept_ev. rewrite St, Ep.
+    destruct (acts pl); [|discriminate]. cbn [steps]. rewrite Eo. reflexivity.
+  - (* Barrier *)
+    destruct (Z.eqb code 72) eqn:E72.
+    { split_match H. inversion H; subst. cbn [fst snd pmon_cs]. unfold ev70. rewrite (zrange_eq _ _ E72 eq_refl). apply accept70. exact St. }
+    destruct (Z.eqb code 73) eqn:E73.
+    { split_match H. inversion H; subst. cbn [fst snd pmon_cs]. unfold ev70. rewrite (zrange_eq _ _ E73 eq_refl). apply accept70. exact St. }
+    destruct ((71 <=? code) && (code <=? 79)) eqn:R71; [discriminate|].
+    destruct (plan_ev (cs s) x [code; za; o; v]) as [pl|] eqn:Ep; [|discriminate].
+    destruct (bls n (is_co x) (fun i => Nat.eqb (cop y i) 1) s (acts pl)) as [s1|] eqn:Eb; [|discriminate].
+    destruct (post pl (cs s1)) eqn:Eo; [|discriminate]. inversion H; subst. cbn [fst snd pmon_cs].
+    unfold ev70. rewrite R71. unfold accept_ev. rewrite St, Ep, (bls_steps _ _ _ _ _ _ Eb), Eo. reflexivity.
+  - (* WaitGroup *)
+    destruct (Z.eqb code 75 || Z.eqb code 76 || Z.eqb code 77) eqn:E75.
+    { assert (R : (71 <=? code) && (code <=? 79) = true).
+      { apply orb_prop in E75. destruct E75 as [E75|E]; [apply orb_prop in E75; destruct E75 as [E|E]|]; apply (zrange_eq _ _ E eq_refl). }
+      destruct (Nat.eqb (cop y (Z.to_nat za)) 0 && wpc_eqb (wpc s (Z.to_nat za)) WIdle); [|discriminate].
+      assert (W : forall s2, (if has (Z.to_nat za) (hl s) then Some s else wstep s (WGive (placeholder (cidx y (Z.to_nat za))) (Z.to_nat za))) = Some s2 -> wcs s2 = wcs s).
+      { intros s2 E. destruct (has (Z.to_nat za) (hl s)); [inversion E; reflexivity|]. unfold wstep in E. split_match E. inversion E. reflexivity. }
+      destruct (if has (Z.to_nat za) (hl s) then Some s else wstep s (WGive (placeholder (cidx y (Z.to_nat za))) (Z.to_nat za))) as [s2|] eqn:E2; [|discriminate].
+      destruct (has (Z.to_nat za) (hl s2)); [|discriminate]. inversion H; subst. cbn [fst snd pmon_cs].
+      rewrite (W s2 eq_refl). unfold ev70. rewrite R. apply accept70. exact St. }
+    destruct (Z.eqb code 78) eqn:E78.
+    { destruct (Nat.eqb (cop y (Z.to_nat za)) 3 && wpc_eqb (wpc s (Z.to_nat za)) WRet) eqn:Ec; [|discriminate].
+      apply andb_prop in Ec. destruct Ec as [_ Ec].
+      destruct (wstep s (WStep (Z.to_nat za))) as [s2|] eqn:E2; [|discriminate]. inversion H; subst. cbn [fst snd pmon_cs].
+      assert (W : wcs s2 = wcs s).
+      { unfold wstep in E2. destruct (wpc s (Z.to_nat za)); cbn in Ec; try discriminate. inversion E2. reflexivity. }
+      rewrite W. unfold ev70. rewrite (zrange_eq _ _ E78 eq_refl). apply accept70. exact St. }
+    destruct (Z.eqb code 79) eqn:E79.
+    { destruct (Nat.eqb (cop y (Z.to_nat za)) 0); [|discriminate].
+      destruct (wstep s (WGive (Z.to_nat za) (placeholder (Z.to_nat o)))) as [s2|] eqn:E2; [|discriminate]. inversion H; subst. cbn [fst snd pmon_cs].
+      assert (W : wcs s2 = wcs s) by (unfold wstep in E2; split_match E2; inversion E2; reflexivity).
+      rewrite W. unfold ev70. rewrite (zrange_eq _ _ E79 eq_refl). apply accept70. exact St. }
+    destruct ((71 <=? code) && (code <=? 79)) eqn:R71; [discriminate|].
+    destruct (plan_ev (wcs s) x [code; za; o; v]) as [pl|] eqn:Ep; [|discriminate].
+    destruct (wls (is_co x) (cop y) s (acts pl)) as [s1|] eqn:Eb; [|discriminate].
+    destruct (post pl (wcs s1)) eqn:Eo; [|discriminate]. inversion H; subst. cbn [fst snd pmon_cs].
+    unfold ev70. rewrite R71. unfold accept_ev. rewrite St, Ep, (wls_steps _ _ _ _ _ Eb), Eo. reflexivity.
+Qed.
+
+Corollary accept_all_refines_condvar tr : forall p p', paccept_all p tr = Some p' -> accept_all (proj p) (map ev70 tr) = Some (proj p').
+Proof.
+  induction tr as [|e l IH]; cbn [paccept_all accept_all map]; intros p p' H; [inversion H; reflexivity|].
+  destruct (paccept_ev p e) as [p1|] eqn:E; [|discriminate]. rewrite (accept_refines_condvar _ _ _ E). apply IH. exact H.
+Qed.
